@@ -1164,7 +1164,7 @@ func sScan(n *Nodis, conn *redis.Conn, cmd redis.Command) {
 		return
 	}
 	var match = "*"
-	var count int64
+	var count int64 = 10
 	if cmd.Options.MATCH > 1 {
 		match = cmd.Args[cmd.Options.MATCH]
 	}
@@ -1176,9 +1176,13 @@ func sScan(n *Nodis, conn *redis.Conn, cmd redis.Command) {
 		}
 	}
 	execCommand(conn, func() {
-		cursor, keys := n.SScan(key, cursor, match, count)
+		next, keys := n.SScan(key, cursor, match, count)
+		if next >= n.SCard(key) {
+			// the whole set has been visited
+			next = 0
+		}
 		conn.WriteArray(2)
-		conn.WriteBulk(strconv.FormatInt(cursor, 10))
+		conn.WriteBulk(strconv.FormatInt(next, 10))
 		conn.WriteArray(len(keys))
 		for _, v := range keys {
 			conn.WriteBulk(v)
@@ -1655,7 +1659,7 @@ func hScan(n *Nodis, conn *redis.Conn, cmd redis.Command) {
 	key := cmd.Args[0]
 	cursor, _ := strconv.ParseInt(cmd.Args[1], 10, 64)
 	var match = "*"
-	var count int64
+	var count int64 = 10
 	if cmd.Options.MATCH > 1 {
 		match = cmd.Args[cmd.Options.MATCH]
 	}
@@ -1667,9 +1671,13 @@ func hScan(n *Nodis, conn *redis.Conn, cmd redis.Command) {
 		}
 	}
 	execCommand(conn, func() {
-		_, results := n.HScan(key, cursor, match, count)
+		next, results := n.HScan(key, cursor, match, count)
+		if next >= n.HLen(key) {
+			// the whole hash has been visited
+			next = 0
+		}
 		conn.WriteArray(2)
-		conn.WriteBulk(strconv.FormatInt(cursor, 10))
+		conn.WriteBulk(strconv.FormatInt(next, 10))
 		conn.WriteArray(len(results) * 2)
 		for k, v := range results {
 			conn.WriteBulk(k)
@@ -2665,9 +2673,13 @@ func zScan(n *Nodis, conn *redis.Conn, cmd redis.Command) {
 		}
 	}
 	execCommand(conn, func() {
-		_, results := n.ZScan(key, cursor, match, count)
+		next, results := n.ZScan(key, cursor, match, count)
+		if next >= n.ZCard(key) {
+			// the whole sorted set has been visited
+			next = 0
+		}
 		conn.WriteArray(2)
-		conn.WriteBulk(strconv.FormatInt(cursor, 10))
+		conn.WriteBulk(strconv.FormatInt(next, 10))
 		conn.WriteArray(len(results) * 2)
 		for _, v := range results {
 			conn.WriteBulk(v.Member)
